@@ -24,7 +24,7 @@ BUDGET = {
     "quick": {"worlds": 120, "runs": 30, "wall_cap": 300, "world_wall": 90},
     "thorough": {"worlds": 2400, "runs": 40, "wall_cap": 2400, "world_wall": 120},
 }
-REQUIRED_PROBES = ["operations_mixin", "iam_mixin", "locations_mixin", "api_not_listed", "rule_subset", "iam_yields_to_own_rpc",
+REQUIRED_PROBES = ["mixin_call_with_caller_metadata", "operations_mixin", "iam_mixin", "locations_mixin", "api_not_listed", "rule_subset", "iam_yields_to_own_rpc",
                    "own_iam_rpc_unruled_keeps_mixins", "add_iam_methods", "grpc_call", "async_call", "rest_call",
                    "rest_additional_binding", "exposure_checked", "nothing_exposed", "own_rpc_with_mixin_name", "second_service_client"]
 
@@ -112,6 +112,11 @@ def gen_scenarios(spec, rng, n):
                 if m.get("own_mixin_name") and s["name"] == svc:
                     ops.insert(rng.randint(1, len(ops)), {"id": "own-" + m["name"], "kind": "unary", "service": s["name"], "method": m["name"],
                                                           "form": "dict", "request": {"name": "own/x1"}, "call": {}, "server": [{"reply": {}}]})
+        if rng.random() < 0.4:
+            shared = rng.random() < 0.7
+            for op in ops:
+                if op["kind"] == "mixin":
+                    op["call"] = {"metadata": [["x-caller-tag", "t1"]], **({"metadata_shared": "m1"} if shared else {})}
         out.append({"client": client, "actors": [{"start": 0.0, "ops": ops}], "jitter_default": 0.0})
     return out
 
@@ -174,6 +179,17 @@ def _introspect(run, client, op):
     run.sim.ev("return", op=op["id"], value=None, cls=None)
 
 
+def _call_kwargs(run, op):
+    call = op.get("call") or {}
+    if not call.get("metadata"):
+        return {}
+    md = [tuple(kv) for kv in call["metadata"]]
+    if call.get("metadata_shared"):
+        # legal caller behaviour: the very same LIST object is passed to several mixin calls
+        md = run.shared_md.setdefault(call["metadata_shared"], md)
+    return {"metadata": md}
+
+
 def _sync_mixin(run, client, op):
     engine._invoke_ev(run, op)
     fn = getattr(client, snake(op["method"]), None)
@@ -181,7 +197,7 @@ def _sync_mixin(run, client, op):
         run.sim.ev("raise", op=op["id"], cls="MissingMethod", mod="dsim", msg=f"client has no {snake(op['method'])}")
         return
     try:
-        resp = fn(request=_request_obj(op))
+        resp = fn(request=_request_obj(op), **_call_kwargs(run, op))
     except Exception as e:  # noqa
         run.sim.ev("raise", op=op["id"], **engine.exc_info(e))
         return
@@ -195,7 +211,7 @@ async def _async_mixin(run, client, op):
         run.sim.ev("raise", op=op["id"], cls="MissingMethod", mod="dsim", msg=f"client has no {snake(op['method'])}")
         return
     try:
-        resp = await fn(request=_request_obj(op))
+        resp = await fn(request=_request_obj(op), **_call_kwargs(run, op))
     except Exception as e:  # noqa
         run.sim.ev("raise", op=op["id"], **engine.exc_info(e))
         return
@@ -381,8 +397,13 @@ def judge(spec, scenario, history):
         hdr = [v for k, v in a["md"] if k.lower() == c06.HDR]
         import urllib.parse
         got_h = dict(urllib.parse.parse_qsl(hdr[0], keep_blank_values=True)) if hdr else {}
-        if got_h != {key: op["request"][key]}:
-            return V("routing_header", f"x-goog-request-params={hdr}; expected {key}={op['request'][key]!r}")
+        if got_h != {key: op["request"][key]} or len(hdr) != 1:
+            return V("routing_header", f"x-goog-request-params={hdr}; expected exactly one header {key}={op['request'][key]!r}")
+        if (op.get("call") or {}).get("metadata"):
+            _bump(probes, "mixin_call_with_caller_metadata")
+            tag = [v for k, v in a["md"] if k == "x-caller-tag"]
+            if tag != ["t1"]:
+                return V("caller_metadata", f"caller metadata x-caller-tag=t1 arrived as {tag}")
         # reply
         if op["resp_full"] == "google.protobuf.Empty":
             if outcome.get("value") is not None:
